@@ -25,7 +25,7 @@ if [ $ok = yes ]; then
   cp "$src/patch.diff" /verif/seeded/$id/patch.diff
   cp "$demo" /verif/seeded/$id/demo_test.go
   [ -f "$src/notes.md" ] && cp "$src/notes.md" /verif/seeded/$id/notes.md
-  caught=$(TIER=quick ./tools_mutant.sh "$src/patch.diff" 2>&1 | tee /verif/seeded/$id/checks_quick.log | grep '^CAUGHT-BY:' | sed 's/CAUGHT-BY://')
+  caught=$(TIER=quick ./tools_mutant.sh "$src/patch.diff" ${CONFIRM_CHECKS:-} 2>&1 | tee /verif/seeded/$id/checks_quick.log | grep '^CAUGHT-BY:' | sed 's/CAUGHT-BY://')
   python3 - "$id" "$prop" "$caught" <<'PY'
 import json,sys,subprocess
 id,prop,caught=sys.argv[1],sys.argv[2],sys.argv[3].split()
